@@ -494,13 +494,14 @@ class CSSParser:
             pattern = None
         elif op.startswith('^'):
             # Value start with
-            pattern = re.compile(r'^%s.*' % re.escape(value), flags)
+            # `^=`, `$=` and `*=` should match nothing if the value is empty, so use `[^\s\S]` which cannot be matched.
+            pattern = re.compile(r'^%s.*' % (re.escape(value) if value else r'[^\s\S]'), flags)
         elif op.startswith('$'):
             # Value ends with
-            pattern = re.compile(r'.*?%s$' % re.escape(value), flags)
+            pattern = re.compile(r'.*?%s$' % (re.escape(value) if value else r'[^\s\S]'), flags)
         elif op.startswith('*'):
             # Value contains
-            pattern = re.compile(r'.*?%s.*' % re.escape(value), flags)
+            pattern = re.compile(r'.*?%s.*' % (re.escape(value) if value else r'[^\s\S]'), flags)
         elif op.startswith('~'):
             # Value contains word within space separated list
             # `~=` should match nothing if it is empty or contains whitespace,
